@@ -25,7 +25,7 @@ EXTENDS Naturals, Sequences, FiniteSets
 
 Tri == {"unset", "yes", "no"}
 Hook == {"absent", "ok", "fail", "unstartable"}
-HookFails(h) == h \in {"fail", "unstartable"}        \* a hook that cannot be started stops the run like one that exits non-zero
+HookFails(h) == h \in {"fail", "unstartable"}        \* "fail": the hook process ends in any way other than with status 0 (non-zero exit, killed by a signal); a hook that cannot be started stops the run in the same way
 CfgTriples == {<<c, t, p>> \in BOOLEAN \X BOOLEAN \X BOOLEAN : (t \/ p) => c}
 Failable == {"none", "fetch", "lstags", "status", "add", "commit", "tag", "push"}
 
